@@ -15,9 +15,13 @@ cd $wt
 race=""; grep -qi 'go test -race' $dst/meta.json 2>/dev/null && race="-race"
 cp $dst/seeded_demo_test.go.txt ecs/seeded_demo_test.go
 tags=""; 
-go test $race -vet=off -count=1 -run 'TestSeededDemo' ./ecs > $dst/demo_without.log 2>&1; without=$?
+# a demonstration that speaks about build tags is run under all four configurations:
+# it must pass in all of them without the change and fail in at least one with it
+configs="default"; grep -q 'ark_tiny\|ark_debug' $dst/meta.json 2>/dev/null && configs="default ark_tiny ark_debug ark_tiny,ark_debug"
+demo() { rc=0; : > $1; for c in $configs; do t=""; [ $c != default ] && t="-tags $c"; echo "== $c" >> $1; go test $race $t -vet=off -count=1 -run 'TestSeededDemo' ./ecs >> $1 2>&1 || rc=1; done; return $rc; }
+demo $dst/demo_without.log; without=$?
 git apply $dst/patch.diff || { echo "patch does not apply"; exit 2; }
-go test $race -vet=off -count=1 -run 'TestSeededDemo' ./ecs > $dst/demo_with.log 2>&1; with=$?
+demo $dst/demo_with.log; with=$?
 rm ecs/seeded_demo_test.go
 go test -vet=off -count=1 ./... > $dst/suite_with.log 2>&1; suite=$?
 echo "confirm: demo_without_rc=$without (want 0) demo_with_rc=$with (want !=0) suite_with_rc=$suite (want 0)"
